@@ -43,6 +43,24 @@ fuzz_target!(|data: &[u8]| {
 			panic!("VIOL type={} bytes={} :: input kinds disagree: slice {} unknown-length {} shared-buffer {}", ops.name, monitor::model::hex(b), slice.0.is_some(), unk.is_some(), shared.is_some());
 		}
 	}
+	// every accepted input is also a VALUE: its encoding must be the reference encoding, through
+	// every entry point (C01 / C07), and decode back to itself (C02)
+	if let Ok((v, _)) = monitor::model::spec_decode(&ops.ty, b) {
+		let c = (ops.canon)(&v);
+		let spec = monitor::model::spec_encode(&ops.ty, &c);
+		let r = (ops.enc)(&c, b.len() as u64);
+		if let Err(e) = monitor::diff::bytes_conform(ops, &c, &spec, &r.encode) {
+			panic!("VIOL type={} bytes={} :: encoding of the decoded value: {e}", ops.name, monitor::model::hex(&spec));
+		}
+		if r.using != r.encode || r.to_io != r.encode || r.to_dyn.data != r.encode || r.size != r.encode.len() {
+			panic!("VIOL type={} bytes={} :: encoding entry points disagree for the decoded value", ops.name, monitor::model::hex(&spec));
+		}
+		let (back, used) = (ops.d().slice)(&r.encode);
+		match back {
+			Some(w) if monitor::diff::same_val(ops, &c, &w) && used == r.encode.len() => {},
+			other => panic!("VIOL type={} bytes={} :: re-encoding does not decode back: {:?} consuming {used}", ops.name, monitor::model::hex(&r.encode), other.map(|x| monitor::model::show_val(&x))),
+		}
+	}
 	if let Some(v) = rep.violations.first() {
 		panic!("VIOL type={} bytes={} :: {}", ops.name, monitor::model::hex(b), v.msg);
 	}
